@@ -407,17 +407,20 @@ cJSON *add_element_to_peer(struct peer *p, const cJSON *request)
 		return response;
 	}
 
-	if (unlikely(find_fetchers_for_element(e) != 0)) {
-		free_element(e);
-		return create_error_response_from_request(p, request, INTERNAL_ERROR, "reason", "could not notify fetching peer");
-	}
-
 	if (unlikely(element_table_put(e->path, e) != HASHTABLE_SUCCESS)) {
 		free_element(e);
 		return create_error_response_from_request(p, request, INTERNAL_ERROR, "reason", "element table full");
 	}
 
 	list_add_tail(&e->element_list, &p->element_list);
+
+	/*
+	 * The element exists from here on. A fetching peer that can't be
+	 * notified must not turn the already applied add into an error.
+	 */
+	if (unlikely(find_fetchers_for_element(e) != 0)) {
+		log_peer_err(p, "Could not notify all fetching peers for add of %s\n", e->path);
+	}
 
 	return create_success_response_from_request(p, request);
 }
